@@ -35,9 +35,9 @@ func (w *c17Writer) SetResponse(code codes.Code, _ message.MediaType, _ io.ReadS
 	}
 	return nil
 }
-func (w *c17Writer) Conn() mux.Conn            { return nil }
-func (w *c17Writer) SetMessage(*pool.Message)  {}
-func (w *c17Writer) Message() *pool.Message    { return nil }
+func (w *c17Writer) Conn() mux.Conn           { return nil }
+func (w *c17Writer) SetMessage(*pool.Message) {}
+func (w *c17Writer) Message() *pool.Message   { return nil }
 func c17Handler(id int) mux.Handler {
 	return mux.HandlerFunc(func(w mux.ResponseWriter, _ *mux.Message) {
 		cw := w.(*c17Writer)
